@@ -90,3 +90,7 @@ def partial_trace_consistency(inp):
 def query_between_steps(inp):
     from replay.c14 import tebd_query_between_computes
     return tebd_query_between_computes(inp)
+
+
+# thorough tier (bounded native sweeps): (function, inputs, obligation of the open finding it reproduces or None)
+THOROUGH = [('parallel_modes', {}, None), ('partial_trace_consistency', {}, None), ('query_between_steps', {}, None)]
